@@ -5,7 +5,8 @@ From FlacCodec Require Ast Stream Header Wf Enc Enc_proofs.
 From FlacWriters Require Import Meta Params Finalize Writers.
 From FlacWriters Require Import Params_proofs.
 From FlacReaders Require Readers Spec Ser RNum Seek.
-From FlacE2E Require Import Bridge E2E SampleE2E Success ReadBridge ReadersE2E.
+From FlacWriters Require Import Lists_proofs Writers_proofs.
+From FlacE2E Require Import Bridge E2E SampleE2E Success ChannelE2E ReadBridge ReadersE2E.
 Import ListNotations.
 Open Scope N_scope.
 
@@ -117,6 +118,25 @@ Theorem C01_written_samples_are_read : forall o L md5, (forall l, length (md5 l)
       FlacReaders.Spec.exactly_once written atr.
 Proof. exact written_samples_are_read. Qed.
 
+(* C01 for FlacChannelWriter on the channels themselves: per-channel slices of equal length in ANY chunking, samples
+   within the bit depth, a run that finished => the file decodes to blocks whose per-channel concatenation
+   (`stack`) is exactly what was written *)
+Theorem C01_end_to_end_channels : forall o L md5, (forall l, length (md5 l) = 16%nat) ->
+  forall p rate bps wo ch total w chunks f,
+  options_wf wo ->
+  channel_new p [] wo rate bps ch total = Ok w ->
+  Forall (chunk_ok (N.to_nat ch)) chunks ->
+  channel_run (encB o L rate bps) md5 p w chunks = Ok f ->
+  let all := cconcat (N.to_nat ch) chunks in
+  forallb (FlacCodec.Wf.fits bps) (concat all) = true ->
+  N.of_nat (length (hd [] all)) < 2 ^ 36 ->
+  exists blocks,
+    FlacCodec.Stream.dec_stream (f_stream f) =
+      Some (conv_si (f_si f), map FlacCodec.Stream.interleave_frame blocks, FlacCodec.Stream.EndEof) /\
+    stack blocks (repeat [] (N.to_nat ch)) = all.
+Proof. intros. eapply e2e_channel_pcm; eauto. Qed.
+
+Print Assumptions C01_end_to_end_channels.
 Print Assumptions C01_written_samples_are_read.
 Print Assumptions C01_sample_writer_lossless.
 Print Assumptions C01_written_metadata_is_read.
